@@ -482,6 +482,15 @@ def gen_encoding(rng, n, tier):
                             muts.append(enc((p[0], F.add(p[1], F.one)), form, gb))     # off curve
                     for m in muts:
                         L.append("dec %s %s 1 %s" % (g, form, bytes(m).hex()))
+        # off-curve points that nevertheless have order r under the addition formulas (which do not involve b):
+        # (t^2 x, t^3 y) lies on y^2 = x^3 + t^6 b; a decoder that relies on the subgroup test alone accepts them
+        for p in [pp for pp in pts if pp is not None][:3]:
+            for t in (2, 3):
+                tt = t if isinstance(p[0], int) else (t, 0)
+                t2 = F.mul(tt, tt); t3 = F.mul(t2, tt)
+                iso = (F.mul(t2, p[0]), F.mul(t3, p[1]))
+                for chk in ("1", "0"):
+                    L.append("dec %s u %s %s" % (g, chk, bytes(enc(iso, "u")).hex()))
         # small x: guaranteed x + q < 2^381, on-curve, cofactor-cleared so in the subgroup
         for _ in range(max(2, n // 4)):
             L.append("dec %s c 1 %s" % (g, bytes(rng.getrandbits(8) for _ in range(xs)).hex()))
